@@ -83,6 +83,35 @@ def q_prepare(a, b, v):
         return ("EXC", type(e).__name__)
 
 
+MGRID = None
+
+
+def q_prepare_masked(a, b, v):
+    """publishing an unmasked quantity in foreign units under an Info that fixes a mask"""
+    g = fm.UniformGrid((3,))
+    try:
+        d = T.prepare(U.Quantity(np.array([v, v]), a), fm.Info(time=T0, grid=g, units=b, mask=np.array([False, True])))
+        return (float(np.ma.getdata(d.magnitude).ravel()[0]), str(d.units))
+    except Exception as e:  # noqa
+        return ("EXC", type(e).__name__)
+
+
+def judge_static_link(a, b):
+    """a static link: the second and third pull must serve the converted value as well"""
+    out = fm.Output("o", fm.Info(time=None, grid=fm.NoGrid(), units=a), static=True)
+    inp = fm.Input("i", fm.Info(time=None, grid=fm.NoGrid(), units=b), static=True)
+    out >> inp
+    inp.ping()
+    inp.exchange_info()
+    out.push_data(np.array(-2.5), None)
+    want = ref_convert(-2.5, a, b)
+    for k in range(3):
+        d = inp.pull_data(None)
+        if not close(float(d.magnitude.ravel()[0]), want) or d.units != U.Unit(b or "dimensionless"):
+            return [("static_link_value", f"pull {k}: -2.5 {a} -> {b}: got {d}, reference {want}")]
+    return []
+
+
 def judge_pair(a, b, regime):
     """all helper answers for the ordered pair (a, b) against the reference"""
     bad = []
@@ -103,6 +132,9 @@ def judge_pair(a, b, regime):
             elif U.Unit(p[1]) != U.Unit(b or "dimensionless") and not (eq and U.Unit(p[1]) == U.Unit(a or "dimensionless")):
                 # (data published in an equivalent unit may keep its label until it crosses the link, where it is relabelled)
                 bad.append(("prepare_units", f"{p[1]} != {b}"))
+            pmk = q_prepare_masked(a, b, v)
+            if isinstance(pmk[0], str) or not close(pmk[0], want):
+                bad.append(("prepare_value_under_fixed_mask", f"{v} {a} -> {b}: got {pmk}, reference {want}"))
             if eq and not isinstance(r, tuple) and r != v:
                 bad.append(("equivalent_relabel_changed_numbers", f"{v} {a} -> {b}: {r!r}"))
         else:
@@ -132,6 +164,7 @@ def judge_link(a, b):
     if not comp:
         bad.append(("link_accepts_incompatible_units", f"{a} -> {b}"))
         return bad
+    bad += judge_static_link(a, b)
     for k, v in enumerate((0.0, 1.0, -2.5)):
         out.push_data(np.array(v), T0 + H(k))
         d = inp.pull_data(T0 + H(k))
